@@ -144,6 +144,16 @@ class Model:
             self.maint = Maintainer('mt', capacity=float('inf') if c == INF else c)
             self.by_asset[self.maint.id] = -1000
 
+        # operating schedules: created after the devices (so they are initialised after them)
+        from simprocesd.model.factory_floor import ActionScheduler
+        self.scheds = []
+        for i, sc in enumerate(cfg.get('scheds') or []):
+            a = ActionScheduler([(d_ * TICK, st) for d_, st in sc['tt']], name='sch%d' % (i + 1), is_cyclical=sc['cyc'])
+            for t in sc['targets']:
+                a.register_object(self.dev[t], lambda sch, obj, time, st: setattr(obj, 'block_input', st == 'off'))
+            self.scheds.append(a)
+            self.by_asset[a.id] = -2000 - (i + 1)
+
     def _callbacks(self, o, d):
         """Public callbacks: the tracer's own observation of occurrences, plus the configuration's
         per-part effects (value added, quality set, cycle-time changes)."""
